@@ -227,6 +227,80 @@ func (s *Sess) Begin(w bool) (*Tx, error) {
 	return t, nil
 }
 
+// ErrFn is what a transaction function returns to make Update / View roll back.
+var ErrFn = fmt.Errorf("verif: the transaction function failed")
+
+// Managed runs body through DB.Update (w) or DB.View, the way applications
+// do.  With fnErr the function returns an error after body, so the library
+// itself must roll the transaction back (C12).  The recorded events are the
+// same as for Begin ... Commit / Rollback.
+func (s *Sess) Managed(w bool, fnErr bool, nwOnFail func() int, body func(t *Tx)) error {
+	s.txSeq++
+	var t *Tx
+	entered := false
+	fn := func(tx *nutsdb.Tx) error {
+		entered = true
+		t = &Tx{S: s, T: tx, W: w, ID: fmt.Sprintf("%d", nutsdb.VerifTxID(tx))}
+		now := s.now()
+		s.R.Emit(Ev{"op": "begin", "w": w, "err": false, "id": t.ID, "t0": now, "t1": now, "managed": true})
+		if s.Proto != nil && w {
+			// the number of pending writes is known only after body; the begin
+			// event of the protocol stream is emitted right before the function returns
+			defer func() {
+				if n := nutsdb.VerifPendingLen(tx); n > 0 && !fnErr {
+					s.Proto.Emit(Ev{"ev": "begin", "n": n, "id": t.ID})
+					s.protoIn = true
+				}
+			}()
+		}
+		body(t)
+		if fnErr {
+			return ErrFn
+		}
+		return nil
+	}
+	var err error
+	e := Ev{"op": "commit"}
+	if fnErr {
+		e = Ev{"op": "rollback"}
+	}
+	s.guard(e, func() {
+		if w {
+			err = s.DB.Update(fn)
+		} else {
+			err = s.DB.View(fn)
+		}
+		if s.protoIn {
+			s.protoIn = false
+			s.Proto.Emit(Ev{"ev": "end", "err": err != nil})
+		}
+		if !entered {
+			// Begin failed (closed database): the whole call is a refused begin
+			e["op"], e["w"], e["id"] = "begin", w, ""
+			e["err"] = err != nil
+			return
+		}
+		if fnErr {
+			// the function's own error comes back; the transaction was rolled back
+			e["err"] = err != ErrFn
+			return
+		}
+		e["err"] = err != nil
+		if err != nil {
+			e["msg"] = err.Error()
+			nw := 0
+			if nwOnFail != nil {
+				nw = nwOnFail()
+			}
+			e["nw"] = nw
+		}
+	})
+	if t != nil {
+		t.Fin = true
+	}
+	return err
+}
+
 // Commit commits; nw (records completely written before a failure) is
 // supplied by the caller's file observer when the commit fails.
 func (t *Tx) Commit(nwOnFail func() int) error {
